@@ -425,7 +425,7 @@ func styleOrder(styles ...string) []string {
 	var order []string
 	seen := map[string]bool{}
 	for _, style := range styles {
-		for _, part := range strings.Split(style, ";") {
+		for _, part := range splitStyleDeclarations(style) {
 			kv := strings.SplitN(strings.TrimSpace(part), ":", 2)
 			if len(kv) != 2 {
 				continue
@@ -447,7 +447,7 @@ func parseStyleMap(style string) map[string]string {
 	}
 
 	// Split by semicolon to get individual properties
-	parts := strings.Split(style, ";")
+	parts := splitStyleDeclarations(style)
 	for _, part := range parts {
 		part = strings.TrimSpace(part)
 		if part == "" {
@@ -464,4 +464,29 @@ func parseStyleMap(style string) map[string]string {
 	}
 
 	return result
+}
+
+// splitStyleDeclarations splits a style attribute value into its declarations: at semicolons,
+// except inside parentheses and quotes (url(data:image/png;base64,...), content: ";").
+func splitStyleDeclarations(style string) []string {
+	var parts []string
+	depth, quote, start := 0, byte(0), 0
+	for i := 0; i < len(style); i++ {
+		switch ch := style[i]; {
+		case quote != 0:
+			if ch == quote {
+				quote = 0
+			}
+		case ch == '"' || ch == '\'':
+			quote = ch
+		case ch == '(':
+			depth++
+		case ch == ')' && depth > 0:
+			depth--
+		case ch == ';' && depth == 0:
+			parts = append(parts, style[start:i])
+			start = i + 1
+		}
+	}
+	return append(parts, style[start:])
 }
